@@ -95,7 +95,9 @@ func (p *pools) GetEnabledPools(ctx context.Context, ipVersion int) ([]v3.IPPool
 	}
 	return nil, nil
 }
-func (p *pools) GetAllPools(ctx context.Context) ([]v3.IPPool, error) { return []v3.IPPool{p.pool}, nil }
+func (p *pools) GetAllPools(ctx context.Context) ([]v3.IPPool, error) {
+	return []v3.IPPool{p.pool}, nil
+}
 
 type reservations struct{ addrs []uint32 }
 
@@ -538,6 +540,17 @@ func runClientCase(seed uint64) line {
 	nblocks := []int{2, 2, 4}[r.intn(3)]
 	cd := cooldowns[r.intn(len(cooldowns))]
 	strict := r.chance(50)
+	autoalloc := true
+	// "deletion" domain: histories with ReleaseAffinity (blocks lose their affinity, get deleted and re-created) run with
+	// StrictAffinity and without AutoAllocateBlocks, small layouts and mostly a positive cooldown
+	deletion := r.chance(45)
+	if deletion {
+		strict, autoalloc = true, false
+		bsize, nblocks = []int{2, 4, 4}[r.intn(3)], 2
+		if r.chance(70) {
+			cd = []int{1, 2, 5, 30}[r.intn(4)]
+		}
+	}
 	logrus.SetLevel(logrus.PanicLevel)
 	poolLen := 32 - log2(nblocks*bsize)
 	blockLen := 32 - log2(bsize)
@@ -565,7 +578,7 @@ func runClientCase(seed uint64) line {
 	}
 	setCfg := func(cd int) {
 		if _, err := st.Apply(ctx, &model.KVPair{Key: model.IPAMConfigKey{}, Value: &model.IPAMConfig{
-			StrictAffinity: strict, AutoAllocateBlocks: true, IPCooldownSeconds: cd}}); err != nil {
+			StrictAffinity: strict, AutoAllocateBlocks: autoalloc, IPCooldownSeconds: cd}}); err != nil {
 			panic(err)
 		}
 	}
@@ -585,19 +598,35 @@ func runClientCase(seed uint64) line {
 		for i := 0; i < nblocks; i++ {
 			kv, err := ipam.VerifC21QueryBlock(ctx, st, blockNet(i))
 			if err != nil {
-				panic(err)
+				if _, ok := err.(cerrors.ErrorResourceDoesNotExist); !ok {
+					panic(err)
+				}
+				kv = nil // the block does not exist
 			}
 			out = append(out, kv)
 		}
 		return out
 	}
 	dump := func() (string, string, []string) {
-		var bs, txt []string
+		var bs, affs, txt []string
 		for i, kv := range readBlocks() {
+			// the host's BlockAffinity object
+			_, aerr := st.Get(ctx, model.BlockAffinityKey{Host: "n0", AffinityType: string(ipam.AffinityTypeHost), CIDR: model.PrefixFromIPNet(blockNet(i))}, "")
+			if kv == nil {
+				bs = append(bs, "None")
+				affs = append(affs, fmt.Sprintf("%v", aerr == nil))
+				txt = append(txt, fmt.Sprintf("   block %d: does not exist", i))
+				continue
+			}
 			b := kv.Value.(*model.AllocationBlock)
-			bs = append(bs, blockCoq(b))
-			txt = append(txt, fmt.Sprintf("   block %d: %s", i, blockText(b)))
+			if (aerr == nil) != (b.Affinity != nil) {
+				panic("affinity object and block affinity disagree")
+			}
+			bs = append(bs, "Some "+blockCoq(b))
+			affs = append(affs, fmt.Sprintf("%v", aerr == nil))
+			txt = append(txt, fmt.Sprintf("   block %d (affine=%v): %s", i, aerr == nil, blockText(b)))
 		}
+		affCoq := "[" + strings.Join(affs, ";") + "]"
 		hl, err := st.List(ctx, model.IPAMHandleListOptions{}, "")
 		if err != nil {
 			panic(err)
@@ -631,7 +660,7 @@ func runClientCase(seed uint64) line {
 		for _, x := range hs {
 			hparts = append(hparts, x.s)
 		}
-		return "[" + strings.Join(bs, ";\n") + "]", "[" + strings.Join(hparts, ";") + "]", txt
+		return "[" + strings.Join(bs, ";\n") + "]", affCoq + "\x00[" + strings.Join(hparts, ";") + "]", txt
 	}
 	initBlocks, _, _ := dump()
 
@@ -641,14 +670,24 @@ func runClientCase(seed uint64) line {
 	var obs, ops, keyParts []string
 	tags := map[string]bool{}
 	sawRelease, sawStale, sawReuse, sawCool, sawMulti, sawWrongHandle := false, false, false, false, false, false
+	sawRelAff, sawDeleted, sawRecreated := false, false, false
+	wasAbsent := make([]bool, nblocks)
 	for k := 0; k < nops; k++ {
 		if r.chance(6) {
 			cd = cooldowns[r.intn(len(cooldowns))]
 			setCfg(cd)
 		}
 		advance(r, cd)
-		t := time.Since(start).Nanoseconds()
 		kvs := readBlocks()
+		for _, kv := range kvs {
+			if kv == nil {
+				// a block may be re-created by the next call: newBlock takes its SequenceNumber from the wall clock, which
+				// in reality has advanced by far more than one nanosecond per datastore write since the old block was made
+				time.Sleep(50 * time.Microsecond)
+				break
+			}
+		}
+		t := time.Since(start).Nanoseconds()
 		type ainfo struct {
 			live   bool
 			handle *string
@@ -657,6 +696,12 @@ func runClientCase(seed uint64) line {
 		info := make([]ainfo, nblocks*bsize)
 		var live, notLive []int
 		for i, kv := range kvs {
+			if kv == nil {
+				for o := 0; o < bsize; o++ {
+					notLive = append(notLive, i*bsize+o)
+				}
+				continue
+			}
 			b := kv.Value.(*model.AllocationBlock)
 			for o, a := range b.Allocations {
 				off := i*bsize + o
@@ -672,6 +717,15 @@ func runClientCase(seed uint64) line {
 		}
 		markReleased := func() {
 			for i, kv := range readBlocks() {
+				if kv == nil {
+					for o := 0; o < bsize; o++ {
+						if off := i*bsize + o; info[off].live {
+							everReleased[off] = true
+							oldSeqs[off] = append(oldSeqs[off], info[off].seq)
+						}
+					}
+					continue
+				}
 				b := kv.Value.(*model.AllocationBlock)
 				for o, a := range b.Allocations {
 					off := i*bsize + o
@@ -683,7 +737,34 @@ func runClientCase(seed uint64) line {
 			}
 		}
 		var opCoq, resCoq, opText string
-		switch x := r.intn(100); {
+		x := r.intn(100)
+		if deletion {
+			// more AssignIP (the only call that re-creates a block here) and ReleaseAffinity
+			switch y := r.intn(100); {
+			case y < 22:
+				x = 0 // AutoAssign
+			case y < 42:
+				x = 30 // AssignIP
+			case y < 64:
+				x = 40 // ReleaseIPs
+			case y < 76:
+				x = 70 // ReleaseByHandle
+			case y < 82:
+				x = 90 // GarbageCollectColdIPs
+			default:
+				x = 100 // ReleaseAffinity
+			}
+		}
+		switch {
+		case x == 100:
+			i := r.intn(nblocks)
+			must := r.chance(50)
+			bn := blockNet(i)
+			err := ic.ReleaseAffinity(ctx, bn, "n0", must)
+			sawRelAff = true
+			opCoq = fmt.Sprintf("CRelAff %d %v", i, must)
+			resCoq = "CResErr " + classifyErr(err)
+			opText = fmt.Sprintf("ReleaseAffinity(block %d, mustBeEmpty=%v) -> %s", i, must, classifyErr(err))
 		case x < 30:
 			num := 1 + r.intn(4)
 			if r.chance(10) {
@@ -807,6 +888,13 @@ func runClientCase(seed uint64) line {
 			opText = fmt.Sprintf("ReleaseByHandle(h%d) -> %s", h, classifyErr(err))
 		default:
 			i := r.intn(nblocks)
+			if kvs[i] == nil {
+				i = (i + 1) % nblocks
+			}
+			if kvs[i] == nil {
+				opCoq, resCoq, opText = fmt.Sprintf("CGC %d", i), "CResErr ENone", "GarbageCollectColdIPs skipped (no block)"
+				break
+			}
 			cfg, err := ic.GetIPAMConfig(ctx)
 			if err != nil {
 				panic(err)
@@ -819,7 +907,19 @@ func runClientCase(seed uint64) line {
 			opText = fmt.Sprintf("GarbageCollectColdIPs(block %d) -> %s", i, classifyErr(err))
 		}
 		bs, hs, txt := dump()
-		for _, kv := range readBlocks() {
+		affCoq, hs, _ := strings.Cut(hs, "\x00")
+		for i, kv := range readBlocks() {
+			if kv == nil {
+				if !wasAbsent[i] {
+					sawDeleted = true
+				}
+				wasAbsent[i] = true
+				continue
+			}
+			if wasAbsent[i] {
+				sawRecreated = true
+			}
+			wasAbsent[i] = false
 			b := kv.Value.(*model.AllocationBlock)
 			for _, a := range b.Allocations {
 				if a != nil && b.Attributes[*a].ReleasedAt != nil {
@@ -827,8 +927,8 @@ func runClientCase(seed uint64) line {
 				}
 			}
 		}
-		obs = append(obs, fmt.Sprintf("{| co_t := %d%%N; co_cd := (%d)%%Z; co_op := %s; co_blocks := %s; co_handles := %s; co_res := %s |}",
-			t, cd, opCoq, bs, hs, resCoq))
+		obs = append(obs, fmt.Sprintf("{| co_t := %d%%N; co_cd := (%d)%%Z; co_op := %s; co_blocks := %s; co_affs := %s; co_handles := %s; co_res := %s |}",
+			t, cd, opCoq, bs, affCoq, hs, resCoq))
 		ops = append(ops, fmt.Sprintf("t=%v cd=%d %s", time.Duration(t), cd, opText))
 		ops = append(ops, txt...)
 		keyParts = append(keyParts, fmt.Sprintf("%d|%d|%s", t, cd, opCoq))
@@ -853,9 +953,21 @@ func runClientCase(seed uint64) line {
 	if sawMulti {
 		tags["client:multi-block-release"] = true
 	}
-	coq := fmt.Sprintf("ClientCase %d %s %s [%s]", bsize, natList(rsvOff), initBlocks, strings.Join(obs, ";\n"))
+	if deletion {
+		tags["client:deletion-domain"] = true
+	}
+	if sawRelAff {
+		tags["client:release-affinity"] = true
+	}
+	if sawDeleted {
+		tags["client:block-deleted"] = true
+	}
+	if sawRecreated {
+		tags["client:block-recreated"] = true
+	}
+	coq := fmt.Sprintf("ClientCase %d %s %v %v %d%%N %s [%s]", bsize, natList(rsvOff), strict, autoalloc, uint64(start.UnixNano()), initBlocks, strings.Join(obs, ";\n"))
 	return line{Coq: coq, NT: sawRelease && (sawReuse || sawCool), Key: fmt.Sprintf("C%dx%d|%v|%s", nblocks, bsize, rsvOff, strings.Join(keyParts, ";")),
-		Sample: map[string]any{"stream": "client", "blocks": nblocks, "block_size": bsize, "reserved": rsvOff, "strict_affinity": strict,
+		Sample: map[string]any{"stream": "client", "blocks": nblocks, "block_size": bsize, "reserved": rsvOff, "strict_affinity": strict, "auto_allocate_blocks": autoalloc,
 			"ops": ops, "replay_args": fmt.Sprintf("-one %d", seed)}, Tags: tagList(tags)}
 }
 
